@@ -232,7 +232,7 @@ class PrettyShape(LayoutShape):
 
 
 def program(rnd, i):
-    prog, syms = c02.random_program(rnd, rnd.randint(5, 10))
+    prog, syms = c02.random_program(rnd, rnd.randint(5, 10), rich_branches=False)
     prog = [st for st in prog if st[0] != 'org']
     prog = [('align', C(4)) if st[0] == 'align' and st[1][0] == 'c' and st[1][1] > 8 else st for st in prog]
     extra = rnd.choice(['long', 'gap', 'zero', 'none', 'long-gap'])
@@ -293,6 +293,16 @@ def shapes(tier, seed):
             'inc.asm': [('data', '.byte', [('lsb', V('v2')), C(7)]), ('instr', 'nop', None)]},
             cfgargs=dict(origin=Sym('o0', 0, 0x7000), consts={'v2': c02.SYMS['v2'], 'o0': (0, 0x7000)}),
             props=['C16'], binary=True, start=Sym('o0', 0, 0x7000), pretty=fmt, width=48))
+    # bytes that come from the ISA configuration (predefined data blocks) are in the image, hence in every format
+    for fmt in fmts:
+        blocks = [('blk', Sym('ba', 0x110, 0x112), 3, 0x5A), ('blk2', 0x130, 18, Sym('bv', 0, 255))]
+        org = 0x100
+        if fmt == 'minhex':
+            blocks, org = [('blk', 0, 2, Sym('bv', 0, 255))], 2      # minhex and gaps: see the recorded findings
+        S.append(PrettyShape(f'{fmt}:hand:predefined-data', prog={
+            'main.asm': [('data', '.byte', [C(1), ('lsb', V('v2'))]), ('instr', 'nop', None)]},
+            cfgargs=dict(origin=org, consts={'v2': c02.SYMS['v2']}, data_blocks=blocks),
+            props=['C16'], binary=True, start=0x100 if org == 0x100 else 0, pretty=fmt, width=48))
     for fmt in fmts:
         S.append(PrettyShape(f'{fmt}:hand:include', prog={
             'main.asm': [('data', '.byte', [C(1)]), ('include', 'inc.asm'), ('label', 'b'), ('data', '.2byte', [L('b'), L('i')])],
